@@ -1,6 +1,10 @@
 package mon
 
-import "github.com/ipfs/ipfs-cluster/api"
+import (
+	"time"
+
+	"github.com/ipfs/ipfs-cluster/api"
+)
 
 // The harness's own reading of two conventions of the pin record, so that no
 // oracle asks the code under test what it should expect.
@@ -17,4 +21,28 @@ func DepthOf(m api.PinMode) api.PinDepth {
 // Everywhere tells whether a pin is to be held by every member (both factors -1).
 func Everywhere(p *api.Pin) bool {
 	return p.ReplicationFactorMin == -1 && p.ReplicationFactorMax == -1
+}
+
+// StoredForm is what the state must hold for a submitted pin, by the
+// documented losses of the stored (protobuf) form only: user allocations are
+// not stored, the mode follows from the depth, the expiry has second
+// resolution. Everything else - metadata entries with empty values included -
+// is stored as submitted.
+func StoredForm(p *api.Pin) *api.Pin {
+	q := *p
+	q.UserAllocations = nil
+	q.Mode = api.PinModeRecursive
+	if q.MaxDepth == 0 {
+		q.Mode = api.PinModeDirect
+	}
+	if !q.ExpireAt.IsZero() {
+		q.ExpireAt = time.Unix(q.ExpireAt.Unix(), 0)
+	}
+	if p.Metadata != nil {
+		q.Metadata = map[string]string{}
+		for k, v := range p.Metadata {
+			q.Metadata[k] = v
+		}
+	}
+	return &q
 }
